@@ -17,6 +17,11 @@ support, dof_transformation).  Against it:
   * barycentric pairs (P1/DUAL0, RWG/RBC, SNC/BC, BC/BC ...) with the same reference evaluated on the barycentric
     grid through the spaces' dof_transformation, order independence and the rotation identities.
 Meshes have non-uniform element sizes (area spread >= 4x is a coverage obligation).
+
+Processes: the wall time is Numba compilation, so the cases on edge spaces run in a second process (--worker vec) beside the
+scalar ones, and a reduced sub-set of both runs in the sanitizer build (--worker san; bounds-checked serial kernels, results
+compared with the production build to 1e-10). The quick tier leaves the SNC mass matrices, two mixed kernel specialisations and
+the barycentric pairs to the thorough tier (see the comments at `scalar_pairs`).
 """
 
 import numpy as np
@@ -990,8 +995,8 @@ def main():
         drain(cid)
 
     # ================================================================ barycentric pairs
-    def bary_case(cid, mname, mesh, grid, topo, tk, sk, ot, os_, orders, spd=False):
-        if not ctx.want(cid) or not mine(tk):
+    def bary_case(cid, mname, mesh, grid, topo, tk, sk, ot, os_, orders, spd=False, force=False):
+        if not (ctx.want(cid) or force) or not mine(tk):
             return None
         result = [None]
         with ctx.guard(cid, "identity_barycentric:%sx%s" % (tk, sk), allow=S.ALLOWED_REJECTIONS):
@@ -1188,7 +1193,8 @@ def main():
                         o.pop("swapped_normals", None)
                         # the dual-grid spaces refuse boundary dofs; their primal partners are taken without them as well
                         o.pop("include_boundary_dofs", None)
-                keep[(tk, sk)] = bary_case("B:%s:%sx%s" % (mname, tk, sk), mname, mesh, grid, topo, tk, sk, ot, os_, orders, spd=(tk == sk))
+                force = ctx.only_case == "B:%s:rotation" % mname and (tk, sk) in (("SNC", "BC"), ("RBC", "RWG"))   # replay of the rotation identity
+                keep[(tk, sk)] = bary_case("B:%s:%sx%s" % (mname, tk, sk), mname, mesh, grid, topo, tk, sk, ot, os_, orders, spd=(tk == sk), force=force)
             # rotation identity (n x . preserves the inner product and is skew): <SNC_i, BC_j> = -<RWG_i, RBC_j> = -<RBC_j, RWG_i>
             a, b = keep.get(("SNC", "BC")), keep.get(("RBC", "RWG"))
             if a is not None and b is not None:
@@ -1200,6 +1206,8 @@ def main():
             ctx.lap("barycentric")
         wall_by_mesh[mname] = round(_time.time() - t_mesh, 1)
     ctx.note("wall_by_mesh_s (the first meshes carry the JIT compilation)", wall_by_mesh)
+    import os as _os
+    ctx.note("machine_load_average_1_5_15min_at_end (16 cores; the wall time is serial JIT and scales with it)", [round(x, 1) for x in _os.getloadavg()])
 
     # ================================================================ coverage
     if vec_worker is not None:
